@@ -50,7 +50,7 @@ def check(text, offset=0):
     from pedal.core.submission import Submission
     from pedal.source import verify
     report = Report()
-    report.contextualize(Submission(files={'answer.py': text}, main_file='answer.py', main_code=text))
+    report.contextualize(Submission(files={'answer.py': text, 'picture.png': b'\x89PNG\x00\x01'}, main_file='answer.py', main_code=text))
     if offset:
         report.submission.set_line_offset(offset)
     kind, val = parser_outcome(text)
